@@ -163,7 +163,7 @@ t['stages'].append(dict(engine='rc', harness='disp', variant='gxx', procs=16, ca
 prop('C04', 'exploration',
      'rapidcheck-generated EventDispatcher histories over 12 configurations (keys: int incl. INT_MIN/MAX, enum class, std::string incl. "", embedded NUL and non-SSO, user ordered key, user hashed key with '
      'colliding hash; prototypes by value / by const reference / event excluded / getEvent policy (also user getEvent policies taking their arguments by value, in the exclude and the include form); ArgumentPassing auto/include/exclude; unordered_map, std::map, user map) with dispatches whose arguments '
-     'are lvalues or temporaries and listeners taking arguments by value (stealing them) or by reference; oracle = per-key list model + argument summaries + caller lvalues unchanged; '
+     'are lvalues or temporaries and listeners taking arguments by value (stealing them) or by reference and counting their own calls (the registered object must be the one that runs); oracle = per-key list model + argument summaries + caller lvalues unchanged + listener-internal state; '
      'non-trivial = >=2 keys with listeners, a dispatch with a temporary key whose first listener takes its arguments by value, >=2 listeners on that key',
      COMMON_ASSUME + ['key/prototype universe is the 12-row configuration table', 'insert/remove through a handle of another event of the same dispatcher are not generated (documented UB)'],
      q, t)
@@ -192,7 +192,7 @@ q, t = std_stages('cq', 10000, 200000)
 sched_enum(q, 'cq', 1, 8, 900)
 sched_enum(t, 'cq', 2, 16, 5400)
 prop('C07', 'exploration',
-     'generated programs of waiter threads (wait / waitFor then drain), enqueuers (optionally inside nested DisableQueueNotify scopes) and processors (process, processOne, processIf, processUntil) under the harness-owned scheduler, plus every schedule with <=1 (quick) / <=2 (thorough) preemptions of 24 fixed small programs (bounded-exhaustive stage); '
+     'generated programs of waiter threads (wait / waitFor then drain), enqueuers (optionally inside nested DisableQueueNotify scopes) and processors (process, processOne, processIf, processUntil) under the harness-owned scheduler, plus every schedule with <=1 (quick) / <=2 (thorough) preemptions of 30 fixed small programs (bounded-exhaustive stage); '
      'oracle = at every quiescent state (no runnable thread) a parked waiter with pending events and no DisableQueueNotify alive is a lost wake-up; otherwise waiters are released by sentinel enqueues; '
      'every returned wait must have had a step with a possibly non-empty queue and no certainly-alive DisableQueueNotify; waitFor false only after its timeout fired; '
      'non-trivial = a wait was in progress when an enqueue or the destruction of a DisableQueueNotify completed',
@@ -205,7 +205,7 @@ sched_enum(q, 'cq', 1, 8, 900, at=2)
 sched_enum(t, 'cq', 2, 16, 5400, at=2)
 prop('C11', 'exploration',
      'single-threaded half: listeners and predicates of process/processOne/processIf/processUntil call emptyQueue()/waitFor(0) (queue harness); concurrent half: observer threads calling emptyQueue / waitFor while '
-     'other threads enqueue, process, processOne, takeEvent, clearEvents under the harness-owned scheduler, plus every schedule with <=1 (quick) / <=2 (thorough) preemptions of 22 fixed small programs (bounded-exhaustive stage); oracle = an observation of "empty" over steps [t0,t1] requires every event whose enqueue returned before t0 '
+     'other threads enqueue, process, processOne, takeEvent, clearEvents under the harness-owned scheduler, plus every schedule with <=1 (quick) / <=2 (thorough) preemptions of 27 fixed small programs (bounded-exhaustive stage); processIf / processUntil are generated too, with emptyQueue() observations that overlap such a call not judged; oracle = an observation of "empty" over steps [t0,t1] requires every event whose enqueue returned before t0 '
      'to have had its listener return by t1, or to have been taken/cleared by a call begun before t1; non-trivial = an observation overlapped a processing call that was dispatching',
      SCHED_ASSUME, q, t,
      technique='property-based testing: lock-step queue model (single thread) + generated thread programs x schedules under a controlled scheduler with an interval oracle; preemption-bounded exhaustive schedule enumeration of fixed small programs')
@@ -251,8 +251,8 @@ prop('C17', 'exploration',
 
 q, t = std_stages('anyid', 8000, 100000, enum=True)
 prop('C18', 'exploration',
-     'AnyId<Digester, Storage> for Digester in {std::hash, hash mod 4 (forced collisions), constant} x Storage in {EmptyAnyStorage, opaque storage (neither == nor <), tagged value storage (both)}; value pool of 24 values over '
-     'int/long/unsigned/char/bool/enum/std::string/user struct chosen to collide (int 5, long 5, unsigned 5, enum 5; equal strings; ""). Bounded-exhaustive: all 24^2 pairs and 24^3 triples per configuration '
+     'AnyId<Digester, Storage> for Digester in {std::hash, hash mod 4 (forced collisions), constant} x Storage in {EmptyAnyStorage, opaque storage (neither == nor <), tagged value storage (both)}; value pool of 26 values over '
+     'int/long/unsigned/char/bool/enum/std::string/user struct chosen to collide (int 5, long 5, unsigned 5, enum 5; equal strings; "") and to spread digests over the whole size_t range (0, 6e18, 12e18, -1). Bounded-exhaustive: all 26^2 pairs and 26^3 triples per configuration '
      '(equivalence, strict weak order, incomparability classes == equality classes, equal ids hash equally, collisions stay distinct with value storage / ids equal iff digests equal without) and dispatch through std::map and '
      'std::unordered_map dispatchers against a linear-search model; random: generated law and dispatch cases; non-trivial = the case contains a digest collision between different values',
      COMMON_ASSUME + ['the value universe is the 24-value pool over 8 types'],
